@@ -374,3 +374,269 @@ def notify_family(run, replay=None):
                           rule_text='TLC-generated histories of connect / close / subscribe / unsubscribe / local set / remote write / local set racing a close over 3 connections and 3 characteristics on 2 accessories (edge mode, words, attack words per named guard, simulation); distinct = canonical abstract word; non-trivial = the design spec expects at least one EVENT in it',
                           nontrivial=lambda b: any(sum(s.get('exp', {}).values()) > 0 for s in b['steps']),
                           sanity=sanity, extra_cov=extra)
+
+
+# =====================================================================================================
+# SecureChannel (C05) and Framing (C06)
+# =====================================================================================================
+
+SC_GUARDS = ["tag_checked", "keys_depend_on_secret", "keys_differ_per_direction", "nonce_is_counter", "counter_incremented"]
+
+
+def sc_cfg(nsent, maxwire, weak=(), tail=''):
+    return 'CONSTANTS\n  NSent = %d\n  MaxWire = %d\n  Weak = %s\nCHECK_DEADLOCK FALSE\n%s\n' % (nsent, maxwire, tla_set(weak), tail)
+
+
+def secchan_gen(run):
+    thorough = run.tier == 'thorough'
+    run.model_check('SecureChannel', 'SecureChannel_MC.cfg', workers=8)
+    ns, mw = (3, 3) if thorough else (2, 3)
+    streams = run.generate('SecureChannelGen', cfgtext=sc_cfg(ns, mw, tail='INIT Init\nNEXT Next\nINVARIANT EmitInit\nCONSTRAINT OnlyInit'), timeout=1800, heap='6g')
+    nall = len(streams)
+    extra = []
+    if not thorough:
+        # a seeded sample of the 3-frame space on top of the exhaustive 2-frame space
+        big = run.generate('SecureChannelGen', cfgtext=sc_cfg(3, 2, tail='INIT Init\nNEXT Next\nINVARIANT EmitInit\nCONSTRAINT OnlyInit'), timeout=900)
+        extra = sample(big, 1500, run.seed)
+    else:
+        big = run.generate('SecureChannelGen', cfgtext=sc_cfg(4, 2, tail='INIT Init\nNEXT Next\nINVARIANT EmitInit\nCONSTRAINT OnlyInit'), timeout=900)
+        extra = big
+    attacks = []
+    for g in SC_GUARDS:
+        a = run.generate('SecureChannelGen', cfgtext=sc_cfg(3, 3, weak=[g], tail='INIT Init\nNEXT Next\nINVARIANT NoAttack'), expect_violation=True, heap='6g')
+        if not a:
+            raise ToolTrouble('no attack stream for guard %s' % g)
+        attacks.append((g, a[0]))
+    groups = [('stream', streams), ('stream-sampled', extra)] + [('attack:' + g, [a]) for g, a in attacks]
+    return groups, dict(streams_enumerated=nall + len(extra), frames_sent=ns, max_wire=mw, attack_streams=len(attacks), exhaustive=True)
+
+
+@register('C05')
+def secchan_family(run, replay=None):
+    def extra(lines, behs):
+        return dict(concrete_streams=len(lines), altered_streams=sum(1 for x in lines if x.get('err')),
+                    untouched_streams_accepted=sum(1 for x in lines if not x.get('err')))
+
+    def sanity(lines, behs):
+        if not any(not x.get('err') and x.get('nrel', 0) > 0 for x in lines):
+            raise ToolTrouble('vacuous run: no genuine stream was ever accepted')
+    return generic_family(run, replay, hcv='secchan', trace_mod='SecureChannelTrace', gen=secchan_gen,
+                          rules={'PrefixRule': 'C05', 'DetectRule': 'C05', 'GenuineAccepted': 'C05'}, level='model_checking',
+                          assumptions=['frames on the wire are produced by the independent reference framing (two sessions, both directions); hc is the receiver',
+                                       'alterations are single-bit flips inside the named field (every bit for short streams with small fields in the thorough tier, seeded otherwise) and truncations inside a frame',
+                                       'the AEAD itself (x/crypto) is trusted'],
+                          rule_text='every adversary stream (sequence of observed frames of this/another session, forward/reflected, unaltered or altered in length / ciphertext / tag / cut) up to the stated length is an initial state of SecureChannel.tla; all of them are delivered to hc\'s real Decrypt; distinct = abstract stream; non-trivial = contains at least one item that is not the next genuine frame',
+                          nontrivial=lambda b: any(not (s.get('sess') == 'this' and s.get('dir') == 'fwd' and s.get('alt') == 'none' and s.get('idx') == i + 1) for i, s in enumerate(b['steps'])),
+                          sanity=sanity, extra_cov=extra)
+
+
+def framing_gen(run):
+    thorough = run.tier == 'thorough'
+    run.model_check('Framing', 'Framing_MC.cfg', workers=8)
+    seqs = run.generate('FramingGen', cfgtext='CONSTANTS\n  F = 1024\n  MsgLens = {0, 1, 2, 1023, 1024, 1025, 2047, 2048, 2049, 3072, 4097}\n  MaxMsgs = %d\n  Chunkings = {"full", "one_byte", "halves", "data_with_eof"}\n  Weak = {}\nINIT Init\nNEXT Next\nINVARIANT EmitInit\nCONSTRAINT OnlyInit\nCHECK_DEADLOCK FALSE\n' % (3 if thorough else 2), timeout=1800, heap='6g')
+    nseq = len(seqs)
+    if not thorough:
+        seqs = sample(seqs, 1500, run.seed)
+    import random
+    r = random.Random(run.seed)
+    if thorough:
+        lens = list(range(0, 4098))
+        big = [r.randrange(4098, 1 << 20) for _ in range(40)]
+    else:
+        lens = sorted(set(list(range(0, 34)) + list(range(1000, 1050)) + list(range(2030, 2070)) + list(range(3060, 3085)) + list(range(4085, 4098)) + [r.randrange(0, 4098) for _ in range(150)]))
+        big = [r.randrange(4098, 1 << 18) for _ in range(6)]
+    sweep = [[dict(len=n, chunk=c)] for n in lens + big for c in ("full", "one_byte", "halves", "data_with_eof")]
+    attacks = []
+    for g in ["reader_filled_before_framing", "counter_continues_across_messages"]:
+        a = run.generate('FramingGen', cfgtext='CONSTANTS\n  F = 1024\n  MsgLens = {0, 1, 2, 1023, 1024, 1025, 2049}\n  MaxMsgs = 2\n  Chunkings = {"full", "one_byte", "halves", "data_with_eof"}\n  Weak = %s\nINIT Init\nNEXT Next\nINVARIANT NoAttack\nCHECK_DEADLOCK FALSE\n' % tla_set([g]), expect_violation=True)
+        if not a:
+            raise ToolTrouble('no attack sequence for guard %s' % g)
+        attacks.append((g, a[0]))
+    groups = [('sweep', sweep), ('sequence', seqs)] + [('attack:' + g, [a]) for g, a in attacks]
+    return groups, dict(lengths_swept=len(lens), lengths_0_4097_exhaustive=thorough, large_lengths_sampled=len(big), sequences_enumerated=nseq, sequences_replayed=len(seqs), exhaustive=thorough)
+
+
+@register('C06')
+def framing_family(run, replay=None):
+    return generic_family(run, replay, hcv='framing', trace_mod='FramingTrace', gen=framing_gen,
+                          rules={'WireFormat': 'C06', 'RoundTrip': 'C06'}, level='model_checking',
+                          assumptions=['the reference framing in harness/ref (HKDF-SHA-512 Control-Salt keys, 64-bit LE counter nonce, 2-byte LE length as AAD) is the wire-format oracle; it interoperates with hc on the honest path',
+                                       'payload contents are seeded random bytes'],
+                          rule_text='one message per payload length (every length 0..4097 in the thorough tier, boundary regions plus a seeded sample in quick) x 4 source-reader chunkings, plus every message sequence that is an initial state of Framing.tla; frame lengths are judged by the FramesOf operator evaluated by TLC on each recorded line; distinct = (lengths, chunkings); non-trivial = payload longer than one byte',
+                          nontrivial=lambda b: any(s.get('len', 0) > 1 for s in b['steps']),
+                          fpfun=lambda rule, b, line: '%s/chunk=%s,len%s' % (rule, line.get('chunk'), '=0' if line.get('n') == 0 else '<=1024' if line.get('n', 0) <= 1024 else '>1024'))
+
+
+# =====================================================================================================
+# ConnRead (C07)
+# =====================================================================================================
+
+CR_GUARDS = ["readahead_kept_across_calls", "frame_at_a_time", "remainder_not_reported_as_eof", "timeout_keeps_partial_frame"]
+
+
+def cr_cfg(lens, maxmsgs, bufs, weak=(), tail='', consts=''):
+    return '''CONSTANTS
+  F = 1024
+  OVH = 18
+  BUFSZ = 4096
+  MsgLens = {%s}
+  MaxMsgs = %d
+  CallerBufs = {%s}
+  Weak = %s
+  %s
+CHECK_DEADLOCK FALSE
+%s
+''' % (', '.join(map(str, lens)), maxmsgs, ', '.join(map(str, bufs)), tla_set(weak), consts, tail)
+
+
+def connread_gen(run):
+    thorough = run.tier == 'thorough'
+    if thorough:
+        run.model_check('ConnRead', 'ConnRead_MC.cfg', workers=12, timeout=1800, heap='12g')
+    else:
+        run.model_check('ConnRead', 'mc.cfg', workers=8, cfgtext=cr_cfg([1, 16, 1024, 1030, 2048], 2, [1, 16, 4096],
+                        tail='SPECIFICATION Spec\nINVARIANTS NoSpuriousEOFOrError NoNeedlessBlock ExactBytes\nVIEW View'))
+    t = 'INIT GInit\nNEXT GNext\n'
+    edge = dedupe_prefixes(run.generate('ConnReadGen', cfgtext=cr_cfg([5, 16, 1024, 1030], 2, [16, 4096], tail=t + 'INVARIANT EmitEdge\nVIEW EdgeView'), timeout=1800, heap='6g'))
+    nedge = len(edge)
+    if not thorough:
+        edge = sample(edge, 3000, run.seed)
+    attacks = []
+    for g in CR_GUARDS:
+        a = run.generate('ConnReadGen', cfgtext=cr_cfg([5, 16, 1024, 1030], 2, [16, 4096], weak=[g], tail=t + 'INVARIANT NoAttack\nVIEW AttackView'), expect_violation=True, timeout=900)
+        if not a:
+            raise ToolTrouble('no attack scenario for guard %s' % g)
+        attacks.append((g, a[0]))
+    depth = 14 if thorough else 10
+    sims = []
+    for k, (lens, bufs) in enumerate([([1, 15, 16, 17, 1023, 1024, 1025, 2048, 3072, 4096, 4097], [1, 16, 1024, 4096]),
+                                      ([0, 1, 2, 1041, 1042, 1043, 2047, 2049], [1, 2, 1042, 4096])]):
+        sims += run.generate('ConnReadGen', cfgtext=cr_cfg(lens, 3, bufs, consts='SimLen = %d' % depth, tail=t + 'INVARIANT EmitSim'),
+                             simulate='num=%d' % (40000 if thorough else 2500), heap='2g', timeout=1800, depth=depth + 2)
+    groups = [('edge', edge)] + [('attack:' + g, [a]) for g, a in attacks] + [('sim', sims)]
+    return groups, dict(edge_scenarios=len(edge), edge_scenarios_enumerated=nedge, attack_scenarios=len(attacks), sim_scenarios=len(sims), sim_depth=depth)
+
+
+@register('C07')
+def connread_family(run, replay=None):
+    def extra(lines, behs):
+        return dict(read_calls=sum(1 for x in lines if x.get('ev') == 'read'), reads_returned=sum(1 for x in lines if x.get('ev') == 'ret'),
+                    reads_waiting=sum(1 for x in lines if x.get('ev') == 'pend'), timeouts_fired=sum(1 for x in lines if x.get('ev') == 'fire'),
+                    bytes_delivered=sum(x.get('n', 0) for x in lines if x.get('ev') == 'ret'))
+
+    def fp(rule, b, line):
+        # the scenario shape identifies a finding: message length classes, and the action at which the rule failed
+        def cls(n):
+            return '0' if n == 0 else 'k*1024' if n % 1024 == 0 else '<1024' if n < 1024 else '>1024'
+        msgs = b['steps'][0].get('msgs', [])
+        return '%s/msgs=%s;at=%s' % (rule, '+'.join(cls(n) for n in msgs), line.get('ev'))
+    return generic_family(run, replay, hcv='connread', trace_mod='ConnReadTrace', gen=connread_gen,
+                          rules={'ExactBytes': 'C07', 'NoSpuriousEOFOrError': 'C07', 'NoNeedlessBlock': 'C07'}, level='model_checking',
+                          assumptions=['the network is a scripted net.Conn (segments, read deadlines and "reader is waiting" are controlled and observed exactly); real TCP behaviour is modelled, not observed',
+                                       'ciphertext is produced by the independent reference framing',
+                                       'after the scripted steps the driver lets everything arrive and reads with a 4096-byte buffer until nothing more comes, so that lost or stuck bytes are always noticed'],
+                          rule_text='scenarios = message lengths x segmentations (cut points at frame boundaries, inside the tag, after the first byte) x caller buffer sizes x read deadlines, generated by TLC from ConnRead.tla (one per model transition of a small configuration, an attack scenario per named guard, simulation over the large length sets); distinct = abstract scenario; non-trivial = at least one Read returns data in the design spec',
+                          nontrivial=lambda b: any(s.get('exp') == 'data' for s in b['steps']), extra_cov=extra, fpfun=fp)
+
+
+# =====================================================================================================
+# ConnWrite (C08)
+# =====================================================================================================
+
+def cw_cfg(writers, nf, weak=(), tail=''):
+    return 'CONSTANTS\n  Writer = %s\n  NFrames <- %s\n  Weak = %s\nCHECK_DEADLOCK FALSE\n%s\n' % (tla_set(writers), nf, tla_set(weak), tail)
+
+
+def connwrite_gen(run):
+    thorough = run.tier == 'thorough'
+    run.model_check('ConnWriteMC', 'ConnWrite_MC.cfg', workers=4)
+    t = 'INIT GInit\nNEXT GNext\n'
+    # every interleaving of entering EncryptedWrite and writing to the socket, from the model WITHOUT the lock (adversarial scheduler)
+    s2 = run.generate('ConnWriteGen', cfgtext=cw_cfg(["w1", "w2"], 'NF2', weak=["lock_around_encrypt_and_write"], tail=t + 'INVARIANT EmitDone\nCONSTRAINT Serial'))
+    s3 = run.generate('ConnWriteGen', cfgtext=cw_cfg(["w1", "w2", "w3"], 'NF3', weak=["lock_around_encrypt_and_write"], tail=t + 'INVARIANT EmitDone\nCONSTRAINT Serial'))
+    s2 = [json.loads(x) for x in sorted(set(json.dumps(w) for w in s2))]
+    s3 = [json.loads(x) for x in sorted(set(json.dumps(w) for w in s3))]
+    n3 = len(s3)
+    if not thorough:
+        s3 = sample(s3, 20, run.seed)
+    a = run.generate('ConnWriteGen', cfgtext=cw_cfg(["w1", "w2"], 'NF2', weak=["lock_around_encrypt_and_write"], tail=t + 'INVARIANT NoAttack'), expect_violation=True)
+    if not a:
+        raise ToolTrouble('no attack interleaving without the lock')
+    groups = [('interleaving2', s2), ('interleaving3', s3), ('attack:lock_around_encrypt_and_write', [a[0]])]
+    return groups, dict(interleavings_2_writers=len(s2), interleavings_3_writers_enumerated=n3, interleavings_3_writers_replayed=len(s3), exhaustive=thorough)
+
+
+@register('C08')
+def connwrite_family(run, replay=None):
+    bpath = os.path.join(run.dir, 'beh.ndjson')
+    if replay:
+        behs = [replay['behaviour']]
+        with open(bpath, 'w') as f:
+            f.write(json.dumps(behs[0]) + '\n')
+        stats = dict(replay=True)
+    else:
+        groups, stats = connwrite_gen(run)
+        behs = write_behs(bpath, groups)
+    run.build_harness()
+    tpath = os.path.join(run.dir, 'trace.ndjson')
+    out = run.harness('connwrite', ['--beh', bpath, '--trace', tpath, '--seed', run.seed, '--tier', run.tier])
+    log('  ' + out.strip().splitlines()[-1][:300])
+    lines = read_ndjson(tpath)
+    nstress = 0
+    races = 0
+    if not replay:
+        # ungated stress under the race detector
+        exe = run.build_harness(race=True)
+        spath = os.path.join(run.dir, 'stress.ndjson')
+        n = 300 if run.tier == 'thorough' else 40
+        e = dict(os.environ)
+        e.update(GOENV)
+        e['TMPDIR'] = run.tmp
+        e['GORACE'] = 'halt_on_error=0 exitcode=0'
+        p = subprocess.run([exe, 'connwrite', '--extra', 'stress', '--n', str(n), '--trace', spath, '--seed', str(run.seed)], env=e, cwd=run.dir,
+                           stdout=subprocess.PIPE, stderr=subprocess.STDOUT, timeout=1800)
+        sout = p.stdout.decode(errors='replace')
+        if p.returncode != 0:
+            raise ToolTrouble('stress harness failed rc=%d: %s' % (p.returncode, sout[-1500:]))
+        # only races whose stacks go through hc's write path count
+        for blk in sout.split('WARNING: DATA RACE')[1:]:
+            if 'brutella/hc/hap.(*Connection)' in blk or 'brutella/hc/crypto.(*secureSession).Encrypt' in blk:
+                races += 1
+        sl = read_ndjson(spath)
+        nstress = len(sl)
+        stress_case = dict(id=10 ** 6, kind='stress', steps=[dict(a='Stress', w='all')])
+        behs.append(stress_case)
+        for x in sl:
+            x['case'] = 10 ** 6
+        if sl:
+            sl[0]['races'] = races
+        lines += sl
+        with open(tpath, 'w') as f:
+            for x in lines:
+                f.write(json.dumps(x) + '\n')
+    viols, ok, _ = run.validate('ConnWriteTrace', 'ConnWriteTrace.cfg', tpath)
+
+    def confirm(b, rule):
+        if b.get('kind') == 'stress':
+            return True
+        p2 = os.path.join(run.dir, 'confirm.ndjson')
+        t2 = os.path.join(run.dir, 'confirm-trace.ndjson')
+        with open(p2, 'w') as f:
+            f.write(json.dumps(b) + '\n')
+        run.harness('connwrite', ['--beh', p2, '--trace', t2, '--seed', run.seed, '--tier', run.tier])
+        v2, _, _ = run.validate('ConnWriteTrace', 'ConnWriteTrace.cfg', t2)
+        return any(v[0] == rule for v in v2)
+    cov = mc_summary(run)
+    cov.update(stats)
+    realised = sum(1 for x in lines if x.get('ev') == 'sched' and x.get('realised'))
+    cov.update(dict(traces_validated_against_impl=len(lines), evaluations=len(lines),
+                    distinct_nontrivial=len(set(canon_word(b['steps']) for b in behs if len(b['steps']) >= 4 and b['steps'][1].get('a') == 'Begin')),
+                    rule='every interleaving of "enter EncryptedWrite" and "socket write" events of 2 (and 3) writers that the model WITHOUT the write lock admits, realised on real goroutines with the verif gates; an interleaving that cannot be forced because a writer is held back by mutual exclusion is the good outcome; the captured socket bytes are opened frame by frame with the reference session; plus ungated stress runs under the Go race detector; distinct = interleaving; non-trivial = the second writer enters before the first one has written',
+                    samples=[x for x in lines[:3]], schedules_realised=realised, schedules_blocked_by_mutual_exclusion=sum(1 for x in lines if x.get('ev') == 'sched' and not x.get('realised')),
+                    stress_runs=nstress, data_races_in_write_path=races, rules=['InOrder', 'Contiguous', 'NoRace']))
+    return finish(run, 'model_checking', {}, behs, lines, viols, cov,
+                  ['scripted net.Conn capturing the socket bytes; writers are real goroutines calling hap.Connection.Write',
+                   'a writer that does not reach the gate between sealing and the socket write within 60 ms while another writer is parked there is taken to be held back by mutual exclusion (a wrong guess can only hide a violation, never raise one)',
+                   'the race detector reports are filtered to stacks through hc\'s write path'],
+                  'connwrite', confirm=confirm,
+                  fpfun=lambda rule, b, line: '%s/%s' % (rule, 'stress' if line.get('ev') == 'stress' else 'second-writer-overtakes'))
